@@ -110,6 +110,23 @@ def replay_guard(ctx, rule, kinds=("items", "clears"), monotone=False):
                        "the replay guard's watermark cannot be lowered by compaction" if okm
                        else "the replay guard compares against get_highest_persisted_seqno() — the maximum over the CURRENT tables, which falls when compaction removes the newest persisted item (a compaction filter's verdict; a last-level compaction evicting a bulk-ingested tombstone together with the value it deletes): that item's journal record is above the watermark again, is replayed, and the item is back after a reopen",
                        fn.loc(table_derived[0]) if table_derived else "")
+        # the guard is EXACT: a record is skipped iff its seqno <= the persisted seqno.  `<` replays the newest persisted
+        # record again (a value a compaction filter replaced at that very seqno is shadowed by the journal's original; an
+        # ingested table is shadowed by a stale journaled value); anything wider skips records no table holds (lost writes).
+        if "items" in kinds and sites["items"]:
+            rels = _guard_relations(ctx, fn, og, sites["items"])
+            if rels:
+                bad = [r for r in rels if r[0] != "<="]
+                ctx.ob(rule, fn, "replay-guard-skips-exactly-up-to-the-persisted-seqno", not bad,
+                       "skip condition is record.seqno <= persisted" if not bad else
+                       "the replay guard skips a record when record.seqno %s persisted (%s): %s" % (
+                           bad[0][0], bad[0][1],
+                           "the record that carries the highest persisted seqno is replayed again — the journal's original value shadows what the tables hold at that seqno (a value a compaction filter replaced, C18; table data that superseded it)" if bad[0][0] == "<"
+                           else "records that no table holds are skipped: acknowledged writes are lost on reopen"),
+                       fn.loc(sites["items"][0]))
+            else:
+                ctx.ob(rule, fn, "replay-guard-skips-exactly-up-to-the-persisted-seqno", False,
+                       "cannot find the comparison between the record's seqno and the persisted seqno in the replay guard (rule needs review)", kind="anchor")
         # a cached persisted seqno must be forgotten when a replayed clear drops the keyspace's tables: otherwise the records
         # that follow the clear are still judged "already persisted" and skipped (the tables that vouched for them are gone)
         if "clears" in kinds and sites["clears"]:
@@ -138,6 +155,91 @@ def replay_guard(ctx, rule, kinds=("items", "clears"), monotone=False):
                        else "the persisted seqno is cached (%s) and NOT invalidated after a replayed clear executed tree.clear(): the records journaled after the clear are judged already persisted by tables that no longer exist, and are lost" % cty,
                        fn.loc(bad[0]) if bad else "")
     ctx.floor(rule, "journal replay apply sites (%s)" % "+".join(kinds), n, 8 if len(kinds) == 2 else (6 if "items" in kinds else 2))
+
+
+def _guard_relations(ctx, fn, og, apply_sites):
+    """normalised relations `record.seqno REL persisted` under which the replay guard SKIPS, one per comparison found in the
+    guard helper(s) (functions called in a dominating in-loop branch condition that reach get_highest_persisted_seqno) or
+    inline in the condition.  REL in {"<=", "<", ">=", ">", "==", "!="}."""
+    F = ctx.F
+    out = []
+    helpers = set()
+    inline = []
+    skip_on_true = {}
+    for sb, blk in enumerate(fn.blocks):
+        if blk["t"]["k"] != "switch" or blk["cleanup"] or not A.in_cycle(fn, sb) or not any(A.dominates(fn, sb, ab) for ab in apply_sites):
+            continue
+        cond = og.of_operand(blk["t"]["d"])
+        core_t, neg = A.strip_not(cond)
+        zero, true_t = A.bool_edges(fn, sb)
+        # the branch on which the applies are NOT reachable is the skip branch
+        heads = [bb for bb, tt in fn.calls() if A.cname(tt).endswith("::next") and A.in_cycle(fn, bb)]
+        true_reaches = any(ab in A.reach(fn, true_t, avoid=heads) for ab in apply_sites)
+        false_reaches = any(ab in A.reach(fn, zero, avoid=heads) for ab in apply_sites)
+        if true_reaches == false_reaches:
+            continue
+        skip_when = (not true_reaches)  # value of the (possibly negated) discriminant on the skip edge
+        if neg:
+            skip_when = not skip_when
+        for x in A.walk(core_t):
+            if x.k == "call" and x.a[0] in F.fns and _reaches_persisted(ctx, x.a[0]):
+                helpers.add((x.a[0], skip_when))
+        if core_t.k == "bin" and core_t.a[0] in ("Lt", "Le", "Gt", "Ge", "Eq", "Ne") and any(
+                y.k == "call" and (y.a[0].endswith(PERSISTED) or (y.a[0] in F.fns and _reaches_persisted(ctx, y.a[0]))) for y in A.walk(core_t)):
+            inline.append((core_t, skip_when))
+
+    def is_rec(t):
+        return any((y.k == "param" and "seqno" in str(y.a)) or (y.k == "field" and y.a[1] == "seqno") for y in A.walk(t))
+
+    def norm(op, l, r, truth, plus_one_right=False):
+        # relation rec REL per that holds when the comparison evaluates to `truth`
+        if is_rec(l) and not is_rec(r):
+            rel = {"Le": "<=", "Lt": "<", "Ge": ">=", "Gt": ">", "Eq": "==", "Ne": "!="}[op]
+        elif is_rec(r) and not is_rec(l):
+            rel = {"Le": ">=", "Lt": ">", "Ge": "<=", "Gt": "<", "Eq": "==", "Ne": "!="}[op]
+        else:
+            return None
+        if not truth:
+            rel = {"<=": ">", "<": ">=", ">=": "<", ">": "<=", "==": "!=", "!=": "=="}[rel]
+        return rel
+    for t, skip_when in inline:
+        rel = norm(t.a[0], t.a[1], t.a[2], skip_when)
+        if rel:
+            out.append((rel, A.tstr(t)[:80]))
+    for hid, skip_when in helpers:
+        for f2 in [F.fns[hid]] + F.closures_of(hid):
+            og2 = ctx.og(f2)
+            for b2, blk2 in enumerate(f2.blocks):
+                if blk2["cleanup"]:
+                    continue
+                for st in blk2["s"]:
+                    rv = st["rv"]
+                    if rv["k"] == "bin" and rv.get("op") in ("Lt", "Le", "Gt", "Ge", "Eq", "Ne"):
+                        l, r = og2.of_operand(rv["a"]), og2.of_operand(rv["b"])
+                        # negations applied to this comparison's result before it is returned / switched on
+                        negs = 0
+                        dst = st["p"]["l"]
+                        for u in A.uses_of(f2, dst):
+                            if u[0] == "stmt" and u[3]["rv"]["k"] == "un" and u[3]["rv"].get("op") == "Not":
+                                negs += 1
+                        rel = norm(rv["op"], l, r, skip_when if negs % 2 == 0 else not skip_when)
+                        if rel:
+                            # `rec < per + 1` is `rec <= per`
+                            other = r if is_rec(l) else l
+                            plus = other.k == "bin" and other.a[0] in ("Add", "AddWithOverflow", "AddUnchecked", "Sub", "SubWithOverflow", "SubUnchecked")
+                            if not plus:
+                                for y in A.walk(other):
+                                    if y.k == "bin" and y.a[0] in ("Add", "AddWithOverflow", "AddUnchecked", "Sub", "SubWithOverflow", "SubUnchecked"):
+                                        plus = True
+                            if plus:
+                                one = any(c == ("int", 1) or (isinstance(c, (list, tuple)) and list(c)[-1] == 1) for c in A.consts_in(other))
+                                adds = any(y.k == "bin" and y.a[0].startswith("Add") for y in A.walk(other))
+                                if rel == "<" and one and adds:
+                                    rel = "<="
+                                else:
+                                    rel = rel + " (persisted adjusted by a constant)"
+                            out.append((rel, "%s in %s" % (A.tstr(og2.of_rvalue(rv))[:60], f2.id.rsplit("::", 2)[-2] + "::" + f2.id.rsplit("::", 1)[-1])))
+    return out
 
 
 def _reaches_persisted(ctx, fid, _seen=None):
@@ -326,3 +428,50 @@ def run(ctx):
     # journals one kind of tombstone and applies another answers differently after a reopen (shared with R-C01.1)
     from . import C01
     C01.journal_kind_rules(ctx, "R-C04.7")
+
+    # ---- R-C04.8 a batch's items are applied in the order they were journaled.  All items of a batch carry ONE seqno, so for a
+    # key written twice in a batch the memtable keeps whichever copy is applied last: any reordering between the journal and
+    # the apply (a sort by keyspace, a reversed iteration, a dedup that is not the commit's own newest-per-key rule) changes
+    # what a reopen yields.
+    items_in_order(ctx, "R-C04.8")
+
+    # ---- borrowed obligations (mechanisms owned by other properties that this property's verdict also rests on)
+    # what recovery leaves at the journal's tail decides what the NEXT reopen reads
+    ctx.borrow("C03", ["R-C03.3"], "R-C04.9")
+
+
+REORDER = ("::sort", "::sort_by", "::sort_by_key", "::sort_unstable", "::sort_unstable_by", "::sort_unstable_by_key", "::sort_by_cached_key",
+           "::reverse", "::rev", "::swap", "::rotate_left", "::rotate_right", "::dedup", "::dedup_by", "::dedup_by_key", "::retain",
+           "::retain_mut", "::swap_remove", "::select_nth_unstable", "::select_nth_unstable_by", "::select_nth_unstable_by_key", "::shuffle")
+ORDER_FNS = ("db::Database::recover", "recovery::recover_sealed_memtables", "batch::WriteBatch::commit",
+             "<journal::batch_reader::JournalBatchReader as std::iter::Iterator>::next", "journal::writer::Writer::write_batch")
+ITEM_TYS = ("ReadBatchItem", "batch::item::Item")
+
+
+def items_in_order(ctx, rule):
+    n = 0
+    for fid in ORDER_FNS:
+        fn = ctx.fn(fid, rule)
+        if not fn:
+            continue
+        bad = []
+        for f2 in [fn] + ctx.F.closures_of(fid):
+            for b, t in f2.calls():
+                name = A.cname(t)
+                if not any(name.endswith(s) or (s + "::<") in name or name.split("::<")[0].endswith(s) for s in REORDER) or not t["args"]:
+                    continue
+                tys = []
+                for a in t["args"][:1]:
+                    p = A.op_place(a)
+                    if p is not None:
+                        tys.append(f2.local_ty(p["l"]))
+                tys.append(name)
+                tys.append(t.get("full") or "")
+                if any(k in ty for ty in tys for k in ITEM_TYS):
+                    bad.append((f2, b, name))
+        n += 1
+        ctx.ob(rule, fn, "batch-items-keep-their-journal-order", not bad,
+               "no sort / reverse / dedup / retain over the batch's items between the journal and the apply" if not bad else
+               "%s reorders or filters the items of a batch (%s): all items of a batch share one seqno, so for a key written twice in the batch the copy applied LAST wins — after a reopen the key has the earlier value, or a value the batch had already removed" % (
+                   fid, bad[0][2].rsplit("::", 2)[-1] if "::" in bad[0][2] else bad[0][2]), bad[0][0].loc(bad[0][1]) if bad else "")
+    ctx.floor(rule, "functions that carry batch items between journal and memtable", n, 5)
